@@ -51,3 +51,29 @@ Theorem C07_item_budget_exact :
       (existsb ev_cancel evs = false -> phase_exact c n N item evs).
 Proof. exact exec_with_retries_exact. Qed.
 Print Assumptions C07_item_budget_exact.
+
+(* the model run that the correspondence check compares with the implementation - the gated
+   schedule: run to quiescence, note the calls in flight, release one - is one of the schedules
+   the theorems of C06-C09, C11 and C20 quantify over *)
+From Flyt Require Import GatedIsRun WaitMon.
+Theorem C07_model_run_is_a_schedule :
+  forall (o : oracle) rel c conc stop n s its,
+  exists sched,
+    let fin := brun o c n its stop (2 * Nat.max 1 conc) (binit its (Nat.max 1 conc) s) sched in
+    gated_exec o rel c conc stop n s its = (base fin, results_of fin).
+Proof. exact gated_exec_is_brun. Qed.
+Print Assumptions C07_model_run_is_a_schedule.
+
+(* so in that very run what is done for every item is a processing of that item, with the retry
+   waits where they belong *)
+Theorem C07_model_run_items_ok :
+  forall (o : oracle) rel c conc stop n s its,
+  has_exec c = true ->
+  exists sched,
+    let fin := brun o c n its stop (2 * Nat.max 1 conc) (binit its (Nat.max 1 conc) s) sched in
+    gated_exec o rel c conc stop n s its = (base fin, results_of fin) /\
+    forall i, i < length its ->
+      irun c n (item_at its i) (il fin i) <> IBad /\
+      wrun (waitd c) (budget c) n (il fin i) <> WBad.
+Proof. exact gated_exec_items_ok. Qed.
+Print Assumptions C07_model_run_items_ok.
